@@ -114,6 +114,17 @@ theorem c10_watermark_covers_memory (db : DbL) (k : KsL) (hk : k ∈ db.kss) (r 
   simp only [List.mem_filterMap]
   exact ⟨k, hk, by simp only [KsL.memHighest, maxSeqno]; exact congrArg (Option.map fun h => (k.id, h)) hm⟩
 
+/-- **A crash immediately after any journal deletion loses nothing**: in every state reachable by
+    keyspace creation / deletion, writes, clears, memtable rotations, flushes at different times
+    and in different orders, ingestion, journal rotations, earlier maintenance runs and reopens,
+    running `maintenance` (which unlinks every evictable sealed journal, oldest first) and then
+    crashing and recovering yields exactly the content before. -/
+theorem c10_crash_after_eviction_loses_nothing (ops : List DOp) (hwf : ProgWF {} ops) (id : KsId) :
+    ((drun {} ops).maintenance.recover.absOf id).Equiv ((drun {} ops).absOf id) := by
+  have h := maintenance_inv _ (drun_inv {} ops dinv_init hwf)
+  have := recover_abs _ h id
+  exact this
+
 /-! Non-vacuity: two keyspaces, journal rotation, only one flushed → not evicted; then the other. -/
 def exDb : DbL :=
   (((((({} : DbL).createKs "a").1.createKs "b").1.write [(1, .put [1] [1]), (2, .put [2] [2])]).rotateJournal).flush 1)
